@@ -77,7 +77,7 @@ Proof.
       - exact Qc.
       - intros k. rewrite !in_snoc. destruct (Hne k) as (_ & N2 & N3). specialize (Qd k). intuition congruence.
       - intros k Hk. rewrite in_snoc. destruct (Hne k) as (_ & _ & N3). specialize (Qe k Hk). intuition congruence. }
-    destruct e as [p|h|w wj|en|ni nd|fi fd fok|li| | | |pp|pr| |]; cbn in Sh;
+    destruct e as [p|h|w wj|en|ni nd|fi fd fok|li| | | |pp|pr| | |]; cbn in Sh;
       try (apply Hother; [exact Sh|intros k; repeat split; discriminate]).
     + (* EProcess *)
       destruct Sh as (So & -> & Sl & So' & Sh'). unfold Q. rewrite Sl, So', Sh'.
@@ -375,7 +375,7 @@ Proof.
         + rewrite nth_upd_same in Hy by exact Hlt. inversion Hy; subst y. exact Hd.
         + rewrite nth_upd_other in Hy by congruence. apply Dinv_other; [apply Hc, Hne|exact (Nin i y Hy)].
       - rewrite upd_length. intros i Hi. apply Dnone_other; [apply Hc; lia|exact (Nout i Hi)]. }
-    destruct e as [p|h|w wj|en|ni nd|fi fd fok|li| | | |pp|pr| |]; cbn [mon_step] in Es.
+    destruct e as [p|h|w wj|en|ni nd|fi fd fok|li| | | |pp|pr| | |]; cbn [mon_step] in Es.
     + (* EProcess *)
       destruct (m_open m1); [discriminate Es|]. destruct (Nat.eqb p (length (m_rq m1))) eqn:Ep; [|discriminate Es].
       destruct (negb (m_gone m1)); [|discriminate Es]. cbn [andb] in Es. inversion Es; subst m; clear Es. apply Nat.eqb_eq in Ep. subst p. unfold Ninv. cbn [m_rq]. split.
@@ -410,6 +410,7 @@ Proof.
       eapply (Hupd li x); [exact Ex|reflexivity| |apply Dinv_lost, (Nin li x Ex)].
       intros i Hne. cbn. apply Nat.eqb_neq. congruence.
     + destruct (m_gone m1); [discriminate Es|]. inversion Es; subst m. apply Hsame; [reflexivity|intros i; reflexivity].
+    + inversion Es; subst m. apply Hsame; [reflexivity|intros i; reflexivity].
     + inversion Es; subst m. apply Hsame; [reflexivity|intros i; reflexivity].
     + inversion Es; subst m. apply Hsame; [reflexivity|intros i; reflexivity].
     + inversion Es; subst m. apply Hsame; [reflexivity|intros i; reflexivity].
@@ -538,16 +539,17 @@ Section Final.
   Variable eager : N.
   Variable sync : bool.
   Variable reqs : list reqspec.
-  Variable ops : list op.
+  Variables tmo abt : option N.
+  Variable ops : list top.
 
-  Notation logs := (snd (run eager sync reqs st0 ops)).
-  Notation final := (fst (run eager sync reqs st0 ops)).
+  Notation logs := (snd (trun eager sync reqs tmo abt (tst0 tmo) ops)).
+  Notation final := (t_st (fst (trun eager sync reqs tmo abt (tst0 tmo) ops))).
 
   Lemma flat_accepted : exists m, mon_run mon0 (concat logs) = Some m.
-  Proof. destruct (run_sim eager sync reqs ops st0 mon0 R0) as (m & H & _). exists m. apply mon_ops_flat, H. Qed.
+  Proof. destruct (trun_sim eager sync reqs tmo abt ops (tst0 tmo) mon0 R0) as (m & H & _). exists m. apply mon_ops_flat, H. Qed.
 
   Lemma final_accepted : mon_ops mon0 logs <> None.
-  Proof. apply every_log_accepted. Qed.
+  Proof. destruct (trun_sim eager sync reqs tmo abt ops (tst0 tmo) mon0 R0) as (m & H & _). rewrite H. discriminate. Qed.
 
   Lemma final_one_open A B : concat logs = A ++ B ->
     forall i i', In (EProcess i) A -> ~ In (EEnd i) A -> In (EProcess i') A -> ~ In (EEnd i') A -> i = i'.
@@ -572,7 +574,7 @@ Section Final.
     (forall k i d, let A := concat (firstn k logs) in
        In (ENotify i d) A -> In (EEnd i) A \/ In (ELost i) A -> count_fired A i d = 1).
   Proof.
-    destruct flat_accepted as [m H]. destruct (run_sim eager sync reqs ops st0 mon0 R0) as (m' & H' & _).
+    destruct flat_accepted as [m H]. destruct (trun_sim eager sync reqs tmo abt ops (tst0 tmo) mon0 R0) as (m' & H' & _).
     split; [|split].
     - intros A B i d E. eapply fires_at_most_once; eauto.
     - intros A i d ok B E. eapply fired_justified; eauto.
@@ -581,7 +583,7 @@ Section Final.
 
   Lemma final_reading : s_handling final = false -> s_waiting final = false -> net_paused false (concat logs) = false.
   Proof.
-    destruct (run_sim eager sync reqs ops st0 mon0 R0) as (m & H & HR). intros Hh Hw.
+    destruct (trun_sim eager sync reqs tmo abt ops (tst0 tmo) mon0 R0) as (m & H & HR). intros Hh Hw.
     pose proof (paused_run _ mon0 m (mon_ops_flat _ _ _ H)) as P. cbn [m_paused mon0] in P. rewrite <- P.
     destruct HR as (_ & _ & _ & _ & _ & G & _). exact (G Hh Hw).
   Qed.
